@@ -308,6 +308,34 @@ theorem propagateField_sample_shift {K R : Type} [CommRing R] [RealLike R] [Trun
   rw [e0, e1]
   rfl
 
+/-- **`Wavefront.field` of the propagated wavefront when every field's split is the code's `np.fix` split.** The input is a list of
+fields with their real-valued shifts `(s0, s1)` (`Field.shift`, C04); the model splits each with `tfieldOfShift` — no free integer /
+sub-pixel parameter is left. Sample `[i][j]` is the sum, over the fields whose `P·os` window **centred at `trunc(shift)`** and the output
+extent contain its global coordinate `g`, of the Fraunhofer sum at `g − shift`; exactly zero where no field evaluates it. -/
+theorem propagateDft_sample_of_shifts {K R : Type} [CommRing R] [RealLike R] [TruncLike R] [Semiring K] [CxLike K R]
+    (hcast : ∀ n : Int, (RealLike.ofInt n : R) = (n : R))
+    (fs : List (Fld K × R × R)) (αr αc : R) (S0 S1 P0 P1 os : Int) (mask : Option Extent)
+    (hoe : (outExtent (S0 * os) (S1 * os) mask).rmin ≤ (outExtent (S0 * os) (S1 * os) mask).rmax ∧
+           (outExtent (S0 * os) (S1 * os) mask).cmin ≤ (outExtent (S0 * os) (S1 * os) mask).cmax)
+    (hP : 0 < P0 * os ∧ 0 < P1 * os) (i j : Int) (hi : 0 ≤ i ∧ i < S0 * os) (hj : 0 ≤ j ∧ j < S1 * os) :
+    (wavefrontField 1 (propagateDft (fs.map fun p => tfieldOfShift p.1 p.2.1 p.2.2) αr αc S0 S1 P0 P1 os mask) (S0 * os) (S1 * os)).get i j =
+      (fs.map fun p =>
+        if (outExtent (S0 * os) (S1 * os) mask).inb (i - S0 * os / 2) (j - S1 * os / 2) &&
+           (propExtent (P0 * os) (P1 * os) (TruncLike.trunc p.2.1) (TruncLike.trunc p.2.2)).inb (i - S0 * os / 2) (j - S1 * os / 2)
+        then fraunhoferAt p.1 αr αc (RealLike.ofInt (i - S0 * os / 2) - p.2.1) (RealLike.ofInt (j - S1 * os / 2) - p.2.2)
+        else 0).sum := by
+  rw [propagateDft_sample hcast _ αr αc S0 S1 P0 P1 os mask hoe hP i j hi hj, List.map_map]
+  congr 1
+  apply List.map_congr_left
+  intro p _
+  simp only [Function.comp, tfieldOfShift, fixSplit]
+  have e0 : (RealLike.ofInt (i - S0 * os / 2 - TruncLike.trunc p.2.1) : R) - (p.2.1 - RealLike.ofInt (TruncLike.trunc p.2.1)) =
+      RealLike.ofInt (i - S0 * os / 2) - p.2.1 := by simp only [hcast]; push_cast; ring
+  have e1 : (RealLike.ofInt (j - S1 * os / 2 - TruncLike.trunc p.2.2) : R) - (p.2.2 - RealLike.ofInt (TruncLike.trunc p.2.2)) =
+      RealLike.ofInt (j - S1 * os / 2) - p.2.2 := by simp only [hcast]; push_cast; ring
+  rw [e0, e1]
+  rfl
+
 /-- the real truncation toward zero (`np.fix`): `⌊s⌋` for `s ≥ 0`, `⌈s⌉` otherwise -/
 noncomputable instance instTruncLikeReal : TruncLike ℝ := ⟨fun s => if 0 ≤ s then ⌊s⌋ else ⌈s⌉⟩
 
@@ -379,6 +407,28 @@ theorem call_no_mask (fs : List (TField K R)) (αr αc : R) (W0 W1 : Int) (shape
 theorem call_all_defaults (fs : List (TField K R)) (αr αc : R) (W0 W1 os : Int) :
     propagateDftCall fs αr αc W0 W1 .none .none os none = .ok (propagateDft fs αr αc W0 W1 W0 W1 os none) (W0 * os) (W1 * os) := by
   rw [call_no_mask]; rfl
+
+/-- **The call as written, on fields carrying their real shifts**: `propagate_dft(w, du, shape, prop_shape, oversample)` (no mask; `None` /
+int / pair arguments resolved by the generated defaults) answers, and sample `[i][j]` of `Wavefront.field` of the answer is the sum over the
+fields whose window centred at `trunc(shift)` contains the sample of the Fraunhofer sum at `g − shift` — the `np.fix` split (`tfieldOfShift`)
+is inside the statement, the driver adds nothing. -/
+theorem call_sample_of_shifts {K R : Type} [CommRing R] [RealLike R] [TruncLike R] [Semiring K] [CxLike K R]
+    (hcast : ∀ n : Int, (RealLike.ofInt n : R) = (n : R))
+    (fs : List (Fld K × R × R)) (αr αc : R) (W0 W1 : Int) (shape propShape : Gen.ShapeArg) (os : Int)
+    (S P : Int × Int) (hS : Gen.dftShapeDefault W0 W1 shape = S) (hPs : Gen.dftPropShapeDefault S.1 S.2 propShape = P)
+    (hSpos : 0 < S.1 * os ∧ 0 < S.2 * os) (hP : 0 < P.1 * os ∧ 0 < P.2 * os) :
+    ∃ out, propagateDftCall (fs.map fun p => tfieldOfShift p.1 p.2.1 p.2.2) αr αc W0 W1 shape propShape os none = .ok out (S.1 * os) (S.2 * os) ∧
+      ∀ i j : Int, 0 ≤ i ∧ i < S.1 * os → 0 ≤ j ∧ j < S.2 * os →
+        (wavefrontField 1 out (S.1 * os) (S.2 * os)).get i j =
+          (fs.map fun p =>
+            if (outExtent (S.1 * os) (S.2 * os) none).inb (i - S.1 * os / 2) (j - S.2 * os / 2) &&
+               (propExtent (P.1 * os) (P.2 * os) (TruncLike.trunc p.2.1) (TruncLike.trunc p.2.2)).inb (i - S.1 * os / 2) (j - S.2 * os / 2)
+            then fraunhoferAt p.1 αr αc (RealLike.ofInt (i - S.1 * os / 2) - p.2.1) (RealLike.ofInt (j - S.2 * os / 2) - p.2.2)
+            else 0).sum := by
+  refine ⟨propagateDft (fs.map fun p => tfieldOfShift p.1 p.2.1 p.2.2) αr αc S.1 S.2 P.1 P.2 os none, ?_, fun i j hi hj => ?_⟩
+  · rw [call_no_mask, hS, hPs]
+  · exact propagateDft_sample_of_shifts hcast fs αr αc S.1 S.2 P.1 P.2 os none
+      (by rw [outExtent_nomask]; simp only; omega) hP i j hi hj
 
 /-- the resolved body with a mask, by the value of the generated guard and of `boundary` -/
 theorem resolved_mask (fs : List (TField K R)) (αr αc : R) (S0 S1 P0 P1 : Int) (m : Arr Bool) :
@@ -463,6 +513,22 @@ example (r c : Int) := propagateField_sample (K := Int) (R := Int) (fun _ => rfl
   (by rw [outExtent_nomask]; decide) (by decide) r c
 
 example : (outExtent 7 6 (some ⟨2, 4, 0, 3⟩)).inb (-1) 0 = true := by decide
+
+/-- `propagateDft_common_shift`: two fields at non-zero offsets on a 4x4 canvas, common shift (1, -1) -/
+example (i j : Int) (hi : 0 ≤ i ∧ i < 4 * 1) (hj : 0 ≤ j ∧ j < 4 * 1) :=
+  propagateDft_common_shift (K := Int) (R := Int) (fun _ => rfl)
+    [⟨⟨2, 2, fun i j => i + 2 * j + 1⟩, -1, -1⟩, ⟨⟨2, 1, fun i _ => i + 5⟩, 1, 0⟩] 1 (-1) 0 0 4 4 (by decide)
+    (by intro f hf; simp only [List.mem_cons, List.not_mem_nil, or_false] at hf
+        rcases hf with rfl | rfl <;> (simp only [Fld.within, Fld.extent, arrayExtent_eq]; decide))
+    (by intro f hf; simp only [List.mem_cons, List.not_mem_nil, or_false] at hf
+        rcases hf with rfl | rfl <;> decide)
+    1 1 4 4 3 3 1 none (by rw [outExtent_nomask]; decide) (by decide) i j hi hj
+
+/-- a 3x4 mask with holes (support at (0,1) and (2,3)): the mask branch answers with an extent, so the hypothesis of
+`mask_extent_is_support_bbox` and `boundary m = some b` of `call_mask_matching` are reachable -/
+example : ∃ oe, outExtentOfMask 3 4 (some ⟨3, 4, fun i j => (i == 0 && j == 1) || (i == 2 && j == 3)⟩) = some oe ∧ oe = ⟨-1, 1, -1, 1⟩ :=
+  ⟨_, by decide, rfl⟩
+example : boundary ⟨3, 4, fun i j => (i == 0 && j == 1) || (i == 2 && j == 3)⟩ = some ⟨0, 2, 1, 3⟩ := by decide
 end
 
 end Lentil.C02
